@@ -456,6 +456,76 @@ def check_bufsize(eng, run):
     run.ob("C05.bufsz", f"{init.short}:default-is-the-constant", ok)
 
 
+def check_callbacks(eng, run):
+    """the loop-facing datagram callbacks route every datagram independently of its payload: no condition in datagram_received()
+    mentions the payload parameter (an empty datagram is a datagram; a size- or content-dependent filter silently drops packets)"""
+    n = 0
+    for fn in eng.db.all_functions():
+        if isinstance(fn.node, ast.Lambda) or fn.name != "datagram_received" or not fn.module.name.startswith("easynetwork."):
+            continue
+        ps = [a.arg for a in fn.params()]
+        if len(ps) < 2:
+            continue
+        payload = ps[1]
+        n += 1
+        bad = []
+        for x in own_nodes(fn.node):
+            tests = []
+            if isinstance(x, (ast.If, ast.While, ast.IfExp)):
+                tests.append(x.test)
+            if isinstance(x, ast.Assert):
+                tests.append(x.test)
+            for t in tests:
+                if any(isinstance(y, ast.Name) and y.id == payload for y in ast.walk(t)):
+                    bad.append(t)
+        for t in bad[:1]:
+            run.finding("C05.drop", fn, _stmt_at(fn, t.lineno), f"the routing of a received datagram depends on its payload (`{ast.unparse(t)[:60]}`): datagrams for which the test fails "
+                        "(e.g. zero-length ones) are dropped without a packet or a parse error")
+        run.ob("C05.drop", f"{fn.module.name.split('.')[-1]}.{fn.short}:payload-independent-routing", not bad)
+    run.floor("C05.drop datagram_received callbacks", n, 2)
+
+
+def check_codec(eng, run):
+    """writer and reader agree on the text encoding: in every serializer class that stores an encoding, every str<->bytes conversion
+    (`x.encode(...)`, `x.decode(...)`, `str(x, enc, ...)`) names that stored attribute - never a literal, never the default"""
+    root = eng.db.classes.get("easynetwork.serializers.abc:AbstractPacketSerializer") or eng.db.cls("serializers.abc.AbstractPacketSerializer")
+    n = 0
+    for ci in [root] + root.all_subclasses():
+        if not ci.module.name.startswith("easynetwork.serializers"):
+            continue
+        enc_attrs = {m for m in list(ci.fields) + list(ci.field_values) if m.endswith("__encoding")}
+        if not enc_attrs:
+            continue
+        for fn in ci.methods.values():
+            if isinstance(fn.node, ast.Lambda) or fn.self_name is None:
+                continue
+            for c in own_nodes(fn.node):
+                if not isinstance(c, ast.Call):
+                    continue
+                enc = None
+                kind = None
+                if isinstance(c.func, ast.Attribute) and c.func.attr in ("encode", "decode"):
+                    recv = (dotted(c.func.value) or ast.unparse(c.func.value)).lower()
+                    if "coder" in recv or "codec" in recv:
+                        continue  # an encoder / decoder *object* (json.JSONEncoder.encode(packet)), not a text codec call
+                    kind = c.func.attr
+                    enc = c.args[0] if c.args else next((k.value for k in c.keywords if k.arg == "encoding"), None)
+                elif isinstance(c.func, ast.Name) and c.func.id in ("str", "bytes") and len(c.args) >= 2:
+                    kind, enc = c.func.id, c.args[1]
+                elif isinstance(c.func, ast.Name) and c.func.id in ("str", "bytes") and any(k.arg == "encoding" for k in c.keywords):
+                    kind, enc = c.func.id, next(k.value for k in c.keywords if k.arg == "encoding")
+                if kind is None:
+                    continue
+                n += 1
+                e = through_local(fn, enc) if enc is not None else None
+                ok = isinstance(e, ast.Attribute) and dotted(e.value) == fn.self_name and any(m.endswith(e.attr.lstrip("_")) or m.endswith(e.attr) for m in enc_attrs)
+                if not ok:
+                    run.finding("C05.pure", fn, _stmt_at(fn, c.lineno), f"`{ast.unparse(c)[:70]}` converts text with {'the default / ' if enc is None else ''}`{ast.unparse(enc) if enc is not None else 'utf-8'}` instead of the "
+                                f"serializer's configured encoding: what serialize() produces is no longer what deserialize() reads (e.g. utf-16), the sent packet comes back as a parse error")
+                run.ob("C05.pure", f"{ci.name}.{fn.name}:{kind}@+{c.lineno - fn.lineno}:configured-encoding", ok)
+    run.floor("C05.pure text codec call sites in serializers with a configured encoding", n, 8)
+
+
 def run(eng, run):
     run.not_decided += NOT_DECIDED
     check_drop(eng, run)
@@ -465,6 +535,8 @@ def run(eng, run):
     check_oneshot(eng, run)
     check_err(eng, run)
     check_bufsize(eng, run)
+    check_callbacks(eng, run)
+    check_codec(eng, run)
     from sa.analyses.arms import check_dead_arms
     check_dead_arms(eng, run, "C05.arms", ("clients.udp", "clients.async_udp", "lowlevel.api_async.endpoints.datagram", "lowlevel.api_sync.endpoints.datagram", "lowlevel.api_async.servers.datagram", "protocol"), 6)
 
@@ -529,4 +601,22 @@ BENIGN += [
     Variant("sync-recv-noblock-via-local", _RNB,
             lambda fn: replace_stmt(fn, stmt_has("return self.__socket.recv(max_datagram_size)"), "data = self.__socket.recv(max_datagram_size)\nreturn data"),
             why="result bound to a local first"),
+]
+
+
+MUTANTS += [
+    Variant("endpoint-callback-drops-empty-datagrams", "lowlevel.api_async.backend._asyncio.datagram.endpoint:DatagramEndpointProtocol.datagram_received",
+            lambda fn: replace_expr(fn, "self.__transport is not None", "self.__transport is not None and data"), "C05.drop",
+            why="a zero-length datagram yields neither a packet nor a parse error (seed C05-8)"),
+]
+
+
+def _ascii_fast_path(fn):
+    r = next(n for n in ast.walk(fn) if isinstance(n, ast.Return))
+    fn.body[fn.body.index(r):] = ast.parse("document = self.__encoder.encode(packet)\nif document.isascii():\n    return document.encode('ascii')\nreturn document.encode(self.__encoding, self.__unicode_errors)").body
+
+
+MUTANTS += [
+    Variant("json-serialize-ascii-fast-path", "serializers.json:JSONSerializer.serialize", _ascii_fast_path, "C05.pure",
+            why="with encoding='utf-16' the datagram no longer deserializes to the sent packet (seed C05-9)"),
 ]
